@@ -5,6 +5,7 @@
   take every `next`/`next_back`/`len` from it.
 -/
 import AnyVecModel.Model.Ops
+import AnyVecModel.Proofs.KernelIter
 namespace AnyVec
 namespace C14
 open World
@@ -151,6 +152,10 @@ theorem fold_is_run (c : Cursor) (pre : List End) : pre.foldl (fun c e => (c.ste
   induction pre generalizing c with
   | nil => rfl
   | cons e es ih => simp [run, ih]
+
+/-- **source tie**: `Cursor.len` is `Iter::len` of `/repo/src/iter.rs` as re-translated on this run. -/
+theorem len_is_the_source (c : Cursor) : Gen.Kernel.iter_len c.index c.end_ = .ok (.ret c.len) :=
+  KernelTie.iter_len_tie c
 
 end C14
 end AnyVec
